@@ -354,7 +354,13 @@ Returns:
                            datetime.today().strftime('%Y, %m, %d')),
           file=outfile)
     print(getattr(f, 'TIME_INTERVAL', 0), file=outfile)
-    print(f.INDEPENDENT_VARIABLE, file=outfile)
+    indkey = f.INDEPENDENT_VARIABLE
+    indunit = getattr(f.variables[indkey], 'units', indkey)
+    if indunit == indkey:
+        print(indkey, file=outfile)
+    else:
+        # name and unit, like the lines of the dependent variables
+        print(delim.join([indkey, indunit]), file=outfile)
     print('%d' % len(depvarkeys), file=outfile)
     print(delim.join(['1' for k in depvarkeys]), file=outfile)
     print(delim.join([str(getattr(f.variables[k], 'missing_value', -999))
